@@ -1,5 +1,90 @@
-import JSight.Model.TagName
-import JSight.Model.PathPar
 import JSight.Model.IncName
+import JSight.Proofs.C08
+/-!
+C08 — include file names.  Property theorems only (helper lemmas in `JSight/Proofs/C08.lean`).
+-/
 namespace JSight.C08
+open JSight
+
+/-- an accepted include file name is non-empty, relative, backslash-free and has no "." / ".." component
+    — for EVERY byte string -/
+theorem valid_components (s : Bytes) (h : validName s = .ok ()) :
+    s ≠ [] ∧ s.head? ≠ some B.slash ∧ B.bsl ∉ s ∧
+    ∀ c ∈ splitSlash s, c ≠ [B.dot] ∧ c ≠ [B.dot, B.dot] := by
+  obtain ⟨c, t, hs, hc, hany, hb⟩ := validName_ok s h
+  refine ⟨?_, ?_, ?_, ?_⟩
+  · rw [hs]; exact List.cons_ne_nil _ _
+  · rw [hs]; intro h'
+    have : c = B.slash := by simpa using h'
+    rw [this] at hc; simp at hc
+  · intro hm
+    have : s.contains B.bsl = true := List.contains_iff_mem.mpr hm
+    rw [hb] at this; exact Bool.noConfusion this
+  · intro p hp
+    have hn : ¬ (p = [B.dot] ∨ p = [B.dot, B.dot]) := by
+      intro hor
+      have : (splitSlash s).any (fun p => decide (p = [B.dot] ∨ p = [B.dot, B.dot])) = true :=
+        List.any_eq_true.mpr ⟨p, hp, decide_eq_true hor⟩
+      rw [hany] at this; exact Bool.noConfusion this
+    exact ⟨fun h1 => hn (Or.inl h1), fun h2 => hn (Or.inr h2)⟩
+
+/-- absolute names, names with a "." / ".." component and names with a backslash are rejected -/
+theorem rejects (s : Bytes)
+    (h : s.head? = some B.slash ∨ B.bsl ∈ s ∨ ∃ c ∈ splitSlash s, c = [B.dot] ∨ c = [B.dot, B.dot]) :
+    validName s ≠ .ok () := by
+  intro hok
+  obtain ⟨_, hhead, hb, hcomp⟩ := valid_components s hok
+  rcases h with h | h | ⟨c, hc, h⟩
+  · exact hhead h
+  · exact hb h
+  · rcases h with h | h
+    · exact (hcomp c hc).1 h
+    · exact (hcomp c hc).2 h
+
+/-- rootedness is inherited from the directory -/
+theorem join_rooted (dir s : Bytes) (hd : dir ≠ []) : isRooted (dir ++ B.slash :: s) = isRooted dir :=
+  isRooted_append dir (B.slash :: s) hd
+
+/-- the cleaned components of `dir/s` are the cleaned components of `dir` followed by the non-empty
+    components of `s`: joining an accepted name never leaves the directory (lexically) -/
+theorem confined (dir s : Bytes) (hd : dir ≠ []) (h : validName s = .ok ()) :
+    cleanComps (isRooted (dir ++ B.slash :: s)) [] (splitSlash (dir ++ B.slash :: s)) =
+      cleanComps (isRooted dir) [] (splitSlash dir) ++ (splitSlash s).filter (fun c => !c.isEmpty) := by
+  rw [join_rooted dir s hd, splitSlash_append, cleanComps_append,
+    cleanComps_plain _ _ _ (valid_components s h).2.2.2]
+
+/-! ### Non-vacuity checks -/
+
+/-- core has no `DecidableEq (Except ε α)`; local to the checks below -/
+local instance : DecidableEq (Except IncErr Unit)
+  | .ok (), .ok () => isTrue rfl
+  | .error a, .error b => if h : a = b then isTrue (h ▸ rfl) else isFalse (fun h' => h (Except.error.inj h'))
+  | .ok _, .error _ => isFalse nofun
+  | .error _, .ok _ => isFalse nofun
+
+-- "sub/inc.jst"
+example : validName [115,117,98,47,105,110,99,46,106,115,116] = .ok () := by decide
+-- "a/../b"
+example : validName [97,47,46,46,47,98] = .error .dotPart := by decide
+-- ".."
+example : validName [46,46] = .error .dotPart := by decide
+-- "."
+example : validName [46] = .error .dotPart := by decide
+-- "/etc/passwd"
+example : validName [47,101,116,99,47,112,97,115,115,119,100] = .error .absolute := by decide
+-- "a\\b"
+example : validName [97,92,98] = .error .backslash := by decide
+-- "" (Go panic, modelled as an error)
+example : validName [] = .error .empty := by decide
+-- "..a/b.." is a legitimate name (dots inside a component are fine)
+example : validName [46,46,97,47,98,46,46] = .ok () := by decide
+-- pathJoin "/x/y" "sub/inc.jst" = "/x/y/sub/inc.jst"
+example : pathJoin [47,120,47,121] [115,117,98,47,105,110,99,46,106,115,116]
+    = [47,120,47,121,47,115,117,98,47,105,110,99,46,106,115,116] := by decide
+-- pathJoin "x/../.." "a//b" = "../a/b"  (the directory's own ".." are the directory's business)
+example : pathJoin [120,47,46,46,47,46,46] [97,47,47,98] = [46,46,47,97,47,98] := by decide
+-- an instance of `confined`: "/x/y" + "sub/inc.jst"
+example : cleanComps true [] (splitSlash ([47,120,47,121] ++ B.slash :: [115,117,98,47,105]))
+    = [[120],[121],[115,117,98],[105]] := by decide
+
 end JSight.C08
